@@ -622,6 +622,15 @@ def _unconditional_derefs(root):
     return out
 
 
+def _last_and_call(a):
+    """`p and q and f(..)` with call-free p, q: when the test comes out false either f was not
+    called or f returned a false value - the call that may be treated with its falsy summary."""
+    if isinstance(a, ast.BoolOp) and isinstance(a.op, ast.And) and isinstance(a.values[-1], ast.Call):
+        if not any(isinstance(x, ast.Call) for v in a.values[:-1] for x in ast.walk(v)):
+            return a.values[-1]
+    return None
+
+
 class Facts:
     """Forward must-analysis of atomic facts over a CFG.
 
@@ -678,7 +687,7 @@ class Facts:
                 if self.call_info is not None:
                     info = self.call_info(c)
                     if info:
-                        if falsy and c is a and len(info) > 3 and info[3] is not None:
+                        if falsy and (c is a or _last_and_call(a) is c) and len(info) > 3 and info[3] is not None:
                             cattrs |= info[3][0]
                             for at in info[3][1]:
                                 mutated.add("*." + at)
@@ -842,7 +851,7 @@ class Facts:
                         out_exc = self.transfer(n, base, exceptional=True)
                     o = out_exc
                 else:
-                    if lab and lab[0] == "F" and n.kind == "test" and isinstance(n.ast, ast.Call) and self.call_info is not None:
+                    if lab and lab[0] == "F" and n.kind == "test" and (isinstance(n.ast, ast.Call) or _last_and_call(n.ast) is not None) and self.call_info is not None:
                         o = self.transfer(n, base, falsy=True)
                     else:
                         if out_norm is None:
